@@ -165,3 +165,88 @@ ob_e2(
     bounds="unbounded string length; code points above U+2FFFF outside z3's character sort; a single trailing newline admitted by Python '$' is XML white space in tag position",
     weight=5,
 )
+
+
+# ---- c: SER-TREE (parse-back of shapes) -------------------------------------------------
+shims.s5_xml_parser()
+from harness import shapes as SH  # noqa: E402
+from harness import xmlmodel  # noqa: E402
+from harness.common import tree  # noqa: E402
+from vf.registry import specialise  # noqa: E402
+
+
+def c01_tree(shape: int, n1: int, n2: int, a0: int, a1: int, b0: int, b1: int) -> bool:
+    """
+    pre: (a0 == 9 or a0 == 10 or 32 <= a0 <= 55295 or 57344 <= a0 <= 65533) and (a1 == 9 or a1 == 10 or 32 <= a1 <= 55295 or 57344 <= a1 <= 65533)
+    pre: (b0 == 9 or b0 == 10 or 32 <= b0 <= 55295 or 57344 <= b0 <= 65533) and (b1 == 9 or b1 == 10 or 32 <= b1 <= 55295 or 57344 <= b1 <= 65533)
+    post: _ == True
+    """
+    t1 = S(*((a0, a1)[:n1]))
+    t2 = S(*((b0, b1)[:n2]))
+    n = SH.build(shape, t1, t2)
+    want = SH.merge_text(tree(n))
+    for ser in (n.toxml(), n.toprettyxml(indent="  ")):
+        back = tree(xmlmodel.parse(ser).documentElement)
+        if SH.norm(SH.unpad(back)) != SH.norm(want):
+            return False
+    return True
+
+
+specialise(
+    "C01",
+    "c.ser-tree",
+    c01_tree,
+    {"shape": list(range(SH.N_SHAPES)), "n1": [1], "n2": [1]},
+    timeout=400,
+    kernel=K_SER + ("xml.dom.minidom:Text.writexml",),
+    shims=("S2", "S5"),
+    symbolic="two text/attribute segments of 1 symbolic code point each over XML Char (BMP incl. space, TAB, LF)",
+    bounds="shape fixed per instance (10 shapes); parse-back equals the tree modulo the writer's single boundary space in mixed content",
+    weight=60,
+)
+specialise(
+    "C01",
+    "c.ser-tree",
+    c01_tree,
+    {"shape": list(range(1, SH.N_SHAPES)), "n1": [2], "n2": [0, 2]},
+    tiers=("thorough",),
+    timeout=1200,
+    kernel=K_SER + ("xml.dom.minidom:Text.writexml",),
+    shims=("S2", "S5"),
+    symbolic="two text/attribute segments of up to 2 symbolic code points",
+    bounds="shape and segment lengths fixed per instance",
+    weight=500,
+)
+
+
+# ---- homomorphism: escaping is per character -------------------------------------------
+@ob(
+    "C01",
+    "c.homomorphism",
+    timeout=300,
+    kernel=("pyxform.utils:escape_text_for_xml", "xml.dom.minidom:_write_data"),
+    shims=("S2",),
+    symbolic="two strings of 2 symbolic code points each",
+    bounds="|t1| = |t2| = 2: esc(t1+t2) == esc(t1)+esc(t2) for the text escaper and the attribute escaper",
+    weight=30,
+)
+def c01_homomorphism(a0: int, a1: int, b0: int, b1: int) -> bool:
+    """
+    pre: 9 <= a0 <= 65533 and 9 <= a1 <= 65533 and 9 <= b0 <= 65533 and 9 <= b1 <= 65533
+    post: _ == True
+    """
+    import io
+
+    from pyxform.utils import escape_text_for_xml
+    from xml.dom.minidom import _write_data
+
+    t1, t2 = S(a0, a1), S(b0, b1)
+    if escape_text_for_xml(t1 + t2) != escape_text_for_xml(t1) + escape_text_for_xml(t2):
+        return False
+
+    def wd(s):
+        w = io.StringIO()
+        _write_data(w, s)
+        return w.getvalue()
+
+    return wd(t1 + t2) == wd(t1) + wd(t2)
